@@ -23,19 +23,20 @@ class PlanJoinTSPredictorQuery:
 
         # dbt query.
 
-        # move latest into subquery
+        # the subquery takes the place of the outer query: clauses that can't be moved into it are not supported
+        if query.order_by or query.group_by or query.having or query.offset:
+            raise PlanningException(f'Unsupported query to timeseries predictor: {str(query)}')
+
+        # move conditions (latest, time and partition filters) into subquery
         moved_conditions = []
 
-        def move_latest(node, **kwargs):
-            if isinstance(node, BinaryOperation):
-                if Latest() in node.args:
-                    for arg in node.args:
-                        if isinstance(arg, Identifier):
-                            # remove table alias
-                            arg.parts = [arg.parts[-1]]
-                    moved_conditions.append(node)
+        def remove_table_alias(node, is_table, **kwargs):
+            if not is_table and isinstance(node, Identifier):
+                node.parts = [node.parts[-1]]
 
-        query_traversal(query.where, move_latest)
+        if query.where is not None:
+            query_traversal(query.where, remove_table_alias)
+            moved_conditions.append(query.where)
 
         # TODO make project step from query.target
 
@@ -51,7 +52,7 @@ class PlanJoinTSPredictorQuery:
         else:
             table_alias = query.from_table.parts
 
-        # add latest to query.where
+        # add conditions to query.where
         for cond in moved_conditions:
             if query.where is not None:
                 query.where = BinaryOperation('and', args=[query.where, cond])
